@@ -3,6 +3,7 @@ package main
 // SMT term layer: sorts, registry of declarations, prelude generation.
 
 import (
+	"hash/fnv"
 	"fmt"
 	"go/types"
 	"sort"
@@ -349,6 +350,9 @@ func (r *Reg) declHeap(name, idx, elem string) {
 	}
 }
 
+// HeapNames: the registered heap arrays, by name
+func (r *Reg) HeapNames() []string { return sortedStrings(r.heapOrd) }
+
 func (r *Reg) HeapSort(name string) string {
 	h := r.heap[name]
 	return "(Array " + h[0] + " " + h[1] + ")"
@@ -360,7 +364,9 @@ func (r *Reg) StrLit(s string) *Term {
 	}
 	n, ok := r.lits[s]
 	if !ok {
-		n = fmt.Sprintf("lit%d_%s", len(r.lits), sanitize(trunc(s, 12)))
+		h := fnv.New32a()
+		h.Write([]byte(s))
+		n = fmt.Sprintf("lit_%s_%08x", sanitize(trunc(s, 12)), h.Sum32())
 		r.lits[s] = n
 		r.litOrd = append(r.litOrd, s)
 	}
@@ -593,14 +599,14 @@ func (r *Reg) Prelude() string {
 			sb.WriteString("))))\n")
 		}
 	}
-	for _, e := range r.seqOrder {
+	for _, e := range sortedStrings(r.seqOrder) {
 		emitSort("Seq_" + sortId(e))
 	}
-	for _, s := range r.structOrd {
+	for _, s := range sortedStrings(r.structOrd) {
 		emitSort(s)
 	}
 	// cardinality of map domains (len of a map): non-negative, zero exactly for the empty domain, +1 for a new key
-	for _, k := range r.cardOrd {
+	for _, k := range sortedStrings(r.cardOrd) {
 		emitSort(k)
 		id := sortId(k)
 		fmt.Fprintf(&sb, "(declare-fun mapcard_%s ((Array %s Bool)) Int)\n(declare-fun mapwit_%s ((Array %s Bool)) %s)\n", id, k, id, k, k)
@@ -609,14 +615,14 @@ func (r *Reg) Prelude() string {
 		fmt.Fprintf(&sb, "(assert (forall ((d (Array %s Bool)) (k %s)) (! (= (mapcard_%s (store d k true)) (+ (mapcard_%s d) (ite (select d k) 0 1))) :pattern ((mapcard_%s (store d k true))))))\n", k, k, id, id, id)
 	}
 	// box functions
-	for _, s := range r.boxOrd {
+	for _, s := range sortedStrings(r.boxOrd) {
 		emitSort(s)
 		id := sortId(s)
 		fmt.Fprintf(&sb, "(declare-fun box_%s (%s) Int)\n(declare-fun unbox_%s (Int) %s)\n", id, s, id, s)
 		fmt.Fprintf(&sb, "(assert (forall ((x %s)) (! (= (unbox_%s (box_%s x)) x) :pattern ((box_%s x)))))\n", s, id, id, id)
 	}
 	// string literals
-	for _, s := range r.litOrd {
+	for _, s := range sortedStrings(r.litOrd) {
 		n := r.lits[s]
 		fmt.Fprintf(&sb, "(declare-const %s Str)\n(assert (= (slen %s) %d))\n", n, n, len(s))
 		for i := 0; i < len(s); i++ {
@@ -624,7 +630,7 @@ func (r *Reg) Prelude() string {
 		}
 	}
 	// interface implementation predicates
-	for _, n := range r.ifaceOrd {
+	for _, n := range sortedStrings(r.ifaceOrd) {
 		fmt.Fprintf(&sb, "(declare-fun %s (Int) Bool)\n", n)
 		it := r.ifaces[n]
 		var keys []string
@@ -639,10 +645,11 @@ func (r *Reg) Prelude() string {
 		}
 		fmt.Fprintf(&sb, "(assert (not (%s 0)))\n", n)
 	}
-	for _, n := range r.globalOrd {
+	for _, n := range sortedStrings(r.globalOrd) {
 		fmt.Fprintf(&sb, "(declare-const %s %s)\n", n, r.globals[n])
 	}
-	for _, n := range r.funcOrd {
+	funcOrd := r.canonicalFuncOrder()
+	for _, n := range funcOrd {
 		fd := r.funcs[n]
 		if fd.Def != "" && !fd.Rec && !fd.Opaque {
 			fmt.Fprintf(&sb, "(define-fun %s (", fd.Name)
@@ -656,7 +663,7 @@ func (r *Reg) Prelude() string {
 			fmt.Fprintf(&sb, "(declare-fun %s (%s) %s)\n", fd.Name, strings.Join(fd.Args, " "), fd.Ret)
 		}
 	}
-	for _, n := range r.funcOrd {
+	for _, n := range funcOrd {
 		fd := r.funcs[n]
 		if fd.Def != "" && fd.Rec {
 			// fuel-indexed unfolding: f(FS(n), x) = body[f(n, .)] and f(FS(n), x) = f(n, x)
@@ -672,7 +679,7 @@ func (r *Reg) Prelude() string {
 			fmt.Fprintf(&sb, "(assert (forall (%s) (! (= %s %s) :pattern (%s))))\n", strings.Join(bs, " "), app, app0, app)
 		}
 	}
-	for _, a := range r.axioms {
+	for _, a := range sortedStrings(r.axioms) {
 		sb.WriteString(a)
 		sb.WriteString("\n")
 	}
@@ -709,4 +716,71 @@ func (r *Reg) seqElemSortById(seqSort string) string {
 		}
 	}
 	return id
+}
+
+func sortedStrings(xs []string) []string {
+	out := append([]string(nil), xs...)
+	sort.Strings(out)
+	return out
+}
+
+// canonicalFuncOrder: uninterpreted, recursive and opaque functions first (they are only declared), by name; then the
+// macro definitions in an order that respects their dependencies, by name among the ready ones. The order is a function
+// of the set of registered functions, not of the order in which verification happened to need them.
+func (r *Reg) canonicalFuncOrder() []string {
+	var decls, defs []string
+	for _, n := range r.funcOrd {
+		fd := r.funcs[n]
+		if fd.Def != "" && !fd.Rec && !fd.Opaque {
+			defs = append(defs, n)
+		} else {
+			decls = append(decls, n)
+		}
+	}
+	sort.Strings(decls)
+	sort.Strings(defs)
+	isDef := map[string]bool{}
+	for _, n := range defs {
+		isDef[n] = true
+	}
+	deps := map[string][]string{}
+	for _, n := range defs {
+		seen := map[string]bool{}
+		for _, t := range smtTokens(r.funcs[n].Def) {
+			if isDef[t] && t != n && !seen[t] {
+				seen[t] = true
+				deps[n] = append(deps[n], t)
+			}
+		}
+	}
+	out := decls
+	done := map[string]bool{}
+	for len(done) < len(defs) {
+		progress := false
+		for _, n := range defs {
+			if done[n] {
+				continue
+			}
+			ready := true
+			for _, d := range deps[n] {
+				if !done[d] {
+					ready = false
+				}
+			}
+			if ready {
+				done[n] = true
+				out = append(out, n)
+				progress = true
+			}
+		}
+		if !progress {
+			for _, n := range defs {
+				if !done[n] {
+					done[n] = true
+					out = append(out, n)
+				}
+			}
+		}
+	}
+	return out
 }
